@@ -726,6 +726,8 @@ pub mod verif_hooks {
     pub modules: Vec<Vec<PStr>>,
     pub interned_temp: Vec<(String, u32)>,
     pub interned_static: Vec<(String, u32)>,
+    /// entries of the temporary intern table whose slot no longer holds their string
+    pub stale_interned: usize,
   }
 
   pub fn heap_id(p: PStr) -> Option<u32> {
@@ -748,8 +750,18 @@ pub mod verif_hooks {
       .collect();
     let mut unmarked: Vec<usize> = heap.unmarked_module_references.iter().map(|m| m.0).collect();
     unmarked.sort();
-    let mut interned_temp: Vec<(String, u32)> =
-      heap.interned_string.iter().map(|(k, v)| (k.to_string(), *v)).collect();
+    // Keys of `interned_string` point into the slots' own `String`s: never dereference a key
+    // whose slot is gone (it would dangle); report it as stale instead.
+    let mut interned_temp: Vec<(String, u32)> = Vec::new();
+    let mut stale_interned = 0;
+    for (k, v) in heap.interned_string.iter() {
+      match heap.str_pointer_table.get(*v as usize) {
+        Some(StringStoredInHeap::Temporary(s, _)) if std::ptr::eq(s.as_ptr(), k.as_ptr()) => {
+          interned_temp.push((s.clone(), *v))
+        }
+        _ => stale_interned += 1,
+      }
+    }
     interned_temp.sort();
     let mut interned_static: Vec<(String, u32)> =
       heap.interned_static_str.iter().map(|(k, v)| (k.to_string(), *v)).collect();
@@ -761,6 +773,7 @@ pub mod verif_hooks {
       modules: heap.module_reference_pointer_table.iter().map(|p| p.to_vec()).collect(),
       interned_temp,
       interned_static,
+      stale_interned,
     }
   }
 }
